@@ -1443,6 +1443,14 @@ class Path:
         if isinstance(st.op, ast.BitOr) and isinstance(cur, models.SymSet):
             models.call_method(self, cur, "update", [rhs], {})
             return
+        from . import loops as _lp
+        if isinstance(st.op, ast.Add) and isinstance(rhs, _lp.SFilter) and isinstance(cur, (list, SSeq, _lp.SCat)):
+            # list += [x for x in xs if p(x)]: kept as a concatenation with the filter summary (contracts inspect its structure)
+            if isinstance(cur, _lp.SCat):
+                cur.parts.append(rhs)
+                return
+            self.assign(st.target, _lp.SCat([cur, rhs]))
+            return
         if isinstance(st.op, ast.Add) and isinstance(cur, list) and not isinstance(cur, tuple):
             # list += iterable mutates in place
             rs = self.to_seq(rhs)
@@ -1869,6 +1877,16 @@ class Path:
             args, kwargs = self.eval_args(e)
             if isinstance(recv, SSeq) and isinstance(e.func.value, ast.Name) and e.func.attr in ("append", "insert", "pop", "extend"):
                 return self.local_seq_mutation(e.func.value.id, recv, e.func.attr, args)
+            if isinstance(recv, list) and not recv and isinstance(e.func.value, ast.Name) and e.func.attr == "extend" and len(args) == 1:
+                # a still-empty local list extended by a symbolic-length sequence: the local now denotes that sequence
+                from . import loops as _lp
+                src = args[0]
+                seq = _lp.scat_to_seq(self, src) if isinstance(src, _lp.SCat) else self.to_seq(src)
+                if not isinstance(seq, (list, tuple)):
+                    f_, cur_ = self.frame.lookup(e.func.value.id)
+                    if f_ is not None and cur_ is recv:
+                        f_.locals[e.func.value.id] = SSeq(seq.len, seq.at, kind="list", tag=seq.tag)
+                        return None
             from . import models as _m
             if isinstance(recv, _m.SuperProxy):
                 f = _m.super_getattr(self, recv, e.func.attr)
